@@ -187,7 +187,7 @@ pub fn run(ctx: &Ctx) -> i32 {
     // every x86 ISA the design relies on must actually be present, otherwise say so
     ctx.floor("isa_paths_exercised", isas.len() as u64, 2);
     ctx.finish(
-        "every private kernel (hook H2) on every ISA the host supports and the public dispatchers: lengths 0..=320 (all residues mod 8/16/32/64, up to 5 AVX-512 vectors) and 14 long lengths 511..65535 (4 x 3 alignment pairs) x (64 dest alignments x 8 src alignments and the transpose) with scalars cycling through all admitted values, plus all 256 scalars x every length x 2 alignment pairs; contents random/0x00/0xFF/one-hot/nibble pattern; result compared byte-for-byte with the element-wise reference field, source unchanged, 64-byte canaries around both operands unchanged; packed bit vectors built by the harness packer in the documented layout and cross-checked against what Dense/SparseBinaryMatrix::get_sub_row_as_octets produce. non-trivial = len>=1; distinct by (isa, op, len, dest alignment, src alignment, scalar)",
+        "every private kernel (hook H2) on every ISA the host supports and the public dispatchers: lengths 0..=320 (all residues mod 8/16/32/64, up to 5 AVX-512 vectors) and 14 long lengths 511..65535 (4 x 3 alignment pairs) x (64 dest alignments x 8 src alignments and the transpose) with scalars cycling through all admitted values, plus all 256 scalars x every length x 2 alignment pairs; contents random/0x00/0xFF/one-hot/nibble pattern; packed-bit operands dense random / all zero / all one / sparse (about one bit per word) / complementary neighbouring words; result compared byte-for-byte with the element-wise reference field, source unchanged, 64-byte canaries around both operands unchanged; packed bit vectors built by the harness packer in the documented layout and cross-checked against what Dense/SparseBinaryMatrix::get_sub_row_as_octets produce. non-trivial = len>=1; distinct by (isa, op, len, dest alignment, src alignment, scalar)",
         &["reference field built from the polynomial in the harness", "NEON kernels cannot run on this x86-64 host"],
         vec![],
     )
